@@ -957,3 +957,10 @@ m('C08', 'jtvec: layered mode not refused (defect F34)', SIMS,
   'C08.V4.weights')
 m('C19', 'layered: strength handed to empymod as it is (defect F36)', MP,
   "        'strength': 0,", "        'strength': src.strength,", 'C19.L3.moment')
+m('C13', 'select: NaN test array bound for every data set', SURV,
+  "            if remove_empty and key == 'observed':\n                data = survey['data'][key].data\n",
+  "            data = survey['data'][key].data\n            if remove_empty and key == 'observed':\n",
+  'C13.N4.select')
+n('C13', 'select: copy bound to a local first', SURV,
+  "            survey['data'][key] = self.data[key].sel(**selection).copy()",
+  "            selected = self.data[key].sel(**selection).copy()\n            survey['data'][key] = selected")
